@@ -28,10 +28,10 @@ TOGGLES = [
 PROP_VOCAB = [
     "alpha", "betaValue", "gamma_ray", "delta-force", "epsilon.dot", "Zeta", "etaCount2", "theta_3", "iotaID",
     "kappa", "muon", "nuValue", "xi_val", "omicron", "piRate", "rho", "sigmaSum", "tau", "upsilon", "phi",
-    "chi", "psi", "omega",
+    "chi", "psi", "omega", "maß",
 ]
 PATH_VOCAB = ["petId", "owner-id", "item_id", "Key", "sub2", "zone"]
-QUERY_VOCAB = ["q", "page", "pageSize", "sort-by", "filter.name", "include_deleted", "fromDate", "ids", "mode", "filter[tag]", "page size"]
+QUERY_VOCAB = ["q", "page", "pageSize", "sort-by", "filter.name", "include_deleted", "fromDate", "ids", "mode", "filter[tag]", "page size", "größe"]
 HEADER_VOCAB = ["X-Trace-Id", "x-request-key", "Api-Version", "XToken", "x_flag"]
 COOKIE_VOCAB = ["session", "csrf-token", "pref_lang", "trackId"]
 STR_ENUM_VALUES = ["red", "Green", "dark blue", "light-grey", "x1", "1st", "teal", "MAUVE", "°C", "naïve"]
